@@ -124,7 +124,10 @@ func (t *Tree) Func(pkg, name string) *ssa.Function {
 	if p == nil {
 		return nil
 	}
-	return p.Func(name)
+	if f := p.Func(name); f != nil {
+		return f
+	}
+	return renamedFunc(t, pkg, "", name) // renamed, moved, or turned into a method (anchors.go)
 }
 
 // Method resolves method name on *T or T declared in pkg.
@@ -145,7 +148,7 @@ func (t *Tree) Method(pkg, typ, name string) *ssa.Function {
 			}
 		}
 	}
-	return nil
+	return renamedFunc(t, pkg, typ, name) // renamed, or turned into a plain function (anchors.go)
 }
 
 // Methods lists all methods (pointer method set) of a named type.
